@@ -258,6 +258,7 @@ func genOp(t *rapid.T, p Profile, w map[string]int, i, nlogs, nb, nwk int) Op {
 			op.Cp.Ext, op.Cp.Extra = genExtra(t, p, nlogs, nwk)
 		}
 	case "zero":
+		op.Cp.MinSize = 0 // explicitly allowed to create/refresh a size-0 checkpoint
 		op.Cp.Size = SizeSpec{Rel: "cur", N: 0}
 		op.Proof.Kind = "empty"
 	case "refresh":
